@@ -267,6 +267,8 @@ class Locals:
         d = self.defs.get(name, [])
         if len(d) == 1 and d[0][0] == "assign" and d[0][1] is not None:
             return d[0][1]
+        if len(d) > 1 and all(k == "assign" and v is not None for k, v, *_ in d) and len({ast.dump(v) for _, v, *_ in d}) == 1:
+            return d[0][1]  # the same expression bound in several branches (`flag = x == "None"` written once per arm)
         return None
 
     def inline(self, e: ast.AST, depth: int = 4, stop: Tuple[str, ...] = ()) -> ast.AST:
